@@ -32,6 +32,8 @@ type loopInfo struct {
 	ord    int
 	auto   []*Clause
 	entryT map[*ssa.Phi]string
+	headState *State
+	headVals  map[*ssa.Phi]Val
 }
 
 // Frame executes one function body (top-level or inlined).
@@ -52,6 +54,8 @@ type Frame struct {
 	debugRef map[string][]*ssa.DebugRef
 	mutSet   map[ssa.Value]bool
 	curLoopHdr *ssa.BasicBlock
+	evalBlock  *ssa.BasicBlock // block at which a loop assert is evaluated (name resolution)
+	useHead    bool            // resolve loop-carried names to their values at the loop head
 }
 
 const maxInlineDepth = 6
@@ -308,10 +312,49 @@ func (fr *Frame) lookupLocal(name string, h *ssa.BasicBlock) (Val, bool) {
 	if h != nil {
 		for _, in := range h.Instrs {
 			if p, ok := in.(*ssa.Phi); ok && p.Comment == name {
+				if fr.useHead {
+					if li := fr.loops[h]; li != nil {
+						if v, ok := li.headVals[p]; ok {
+							return v, true
+						}
+					}
+				}
 				if v, ok := fr.vals[p]; ok {
 					return v, true
 				}
 			}
+		}
+	}
+	if fr.evalBlock != nil {
+		// the latest definition that dominates the block at which the clause is evaluated
+		var best ssa.Value
+		var bestBlk *ssa.BasicBlock
+		var bestIdx int
+		for _, d := range fr.debugRef[name] {
+			if d.IsAddr {
+				continue
+			}
+			b := d.Block()
+			if !(b.Dominates(fr.evalBlock)) {
+				continue
+			}
+			if _, ok := fr.vals[d.X]; !ok {
+				if _, isC := d.X.(*ssa.Const); !isC {
+					continue
+				}
+			}
+			idx := 0
+			for k, in := range b.Instrs {
+				if in == ssa.Instruction(d) {
+					idx = k
+				}
+			}
+			if best == nil || (bestBlk != b && bestBlk.Dominates(b)) || (bestBlk == b && idx > bestIdx) {
+				best, bestBlk, bestIdx = d.X, b, idx
+			}
+		}
+		if best != nil {
+			return fr.get(best), true
 		}
 	}
 	// a non-phi local: the latest definition that dominates h
@@ -506,6 +549,11 @@ func (fr *Frame) enterLoop(li *loopInfo, edges []edge) (*State, string) {
 	for _, cl := range invs {
 		t := fr.evalClause(cl, li.header, fr.entry, st)
 		fx.assert(implies(c, t))
+	}
+	li.headState = st.clone()
+	li.headVals = map[*ssa.Phi]Val{}
+	for p := range entryPhi {
+		li.headVals[p] = fr.vals[p]
 	}
 	return st, c
 }
